@@ -64,6 +64,8 @@ type Property struct {
 	ModelJobs   func(env *Env) []TLCJob // exhaustive design checks; all must pass
 	GenJobs     func(env *Env) []TLCJob // behaviour generation; PrintT("BEH "+json)
 	MaxBeh      func(env *Env) int      // cap on generated behaviours actually driven (0 = all); sampling is seeded
+	// MaxBehSrc caps per generation job (by TLCJob.Name); applied before MaxBeh. 0 = all.
+	MaxBehSrc func(env *Env, src string) int
 	ExtraBeh    func(env *Env) []json.RawMessage
 	// Expand turns one generated behaviour into the concrete cases to drive (e.g. one per backend).
 	Expand func(env *Env, src string, raw json.RawMessage) []json.RawMessage
@@ -124,6 +126,7 @@ type runState struct {
 	traces   []*Trace
 	viols    []Violation
 	notes    []string
+	srcStats []string
 	selfTest string
 }
 
@@ -234,6 +237,25 @@ func (rs *runState) run(replay string, keep bool) int {
 		rs.nGen = len(behs)
 		// deterministic order, then seeded sampling if capped
 		sort.SliceStable(behs, func(i, j int) bool { return string(behs[i].Data) < string(behs[j].Data) })
+		if p.MaxBehSrc != nil {
+			bySrc := map[string][]Behaviour{}
+			var srcs []string
+			for _, b := range behs {
+				if _, ok := bySrc[b.Src]; !ok {
+					srcs = append(srcs, b.Src)
+				}
+				bySrc[b.Src] = append(bySrc[b.Src], b)
+			}
+			sort.Strings(srcs)
+			behs = behs[:0:0]
+			for _, src := range srcs {
+				bs := bySrc[src]
+				if m := p.MaxBehSrc(env, src); m > 0 && len(bs) > m {
+					bs = sample(bs, m, env.Seed)
+				}
+				behs = append(behs, bs...)
+			}
+		}
 		if p.MaxBeh != nil {
 			if m := p.MaxBeh(env); m > 0 && len(behs) > m {
 				behs = sample(behs, m, env.Seed)
@@ -291,6 +313,39 @@ func (rs *runState) run(replay string, keep bool) int {
 	}
 	fmt.Printf("[drive] behaviours=%d realised=%d unrealisable=%d inconclusive=%d driver_error=%d\n",
 		len(behs), counts[Realised], counts[Unrealisable], counts[Inconclusive], counts[DriverError])
+	{
+		type sc struct {
+			n    map[string]int
+			note string
+		}
+		by := map[string]*sc{}
+		var srcs []string
+		for _, t := range rs.traces {
+			c := by[t.Beh.Src]
+			if c == nil {
+				c = &sc{n: map[string]int{}}
+				by[t.Beh.Src] = c
+				srcs = append(srcs, t.Beh.Src)
+			}
+			c.n[t.Status]++
+			if t.Status != Realised && c.note == "" {
+				c.note = t.Note
+				if os.Getenv("VERIF_DEBUG") != "" {
+					c.note += " BEH=" + string(t.Beh.Data)
+				}
+			}
+		}
+		sort.Strings(srcs)
+		for _, s := range srcs {
+			c := by[s]
+			line := fmt.Sprintf("[drive]   %-28s realised=%d unrealisable=%d inconclusive=%d", s, c.n[Realised], c.n[Unrealisable], c.n[Inconclusive])
+			if c.note != "" {
+				line += "  e.g. " + c.note
+			}
+			fmt.Println(line)
+			rs.srcStats = append(rs.srcStats, line)
+		}
+	}
 	if counts[DriverError] > 0 {
 		rs.writeEvidence(2)
 		fail2("%d driver errors, first: %s", counts[DriverError], rs.notes[0])
